@@ -68,12 +68,14 @@ package mqtt
 // Client invariant (the part the write path relies on): the token channels
 // exist, are one-slot, and a closed write semaphore is empty.
 //@ pred writable(c): c.writeSem != nil && cap(c.writeSem) == 1 && c.onlineSig != nil && !closed(c.onlineSig) && cap(c.onlineSig) == 1 && c.ctx != nil && (closed(c.writeSem) ==> len(c.writeSem) == 0)
+//@ pred sigfull(c): len(c.onlineSig) == 1 && qat(c.onlineSig, 0) != nil && len(qat(c.onlineSig, 0)) == 0 && c.offlineSig != nil && !closed(c.offlineSig) && cap(c.offlineSig) == 1 && c.offlineSig != c.onlineSig && len(c.offlineSig) == 1 && qat(c.offlineSig, 0) != nil && len(qat(c.offlineSig, 0)) == 0 && qat(c.offlineSig, 0) != qat(c.onlineSig, 0)
 
 // Content invariants of the token channels: every sender is obliged to them,
 // every receiver may rely on them.
 //@ chaninv mqtt.Client.writeSem(v): v != nil
-//@ chaninv mqtt.Client.onlineSig(v): v != nil
-//@ chaninv mqtt.Client.offlineSig(v): v != nil
+// Signal channels are only ever closed, never sent on.
+//@ chaninv mqtt.Client.onlineSig(v): v != nil && len(v) == 0
+//@ chaninv mqtt.Client.offlineSig(v): v != nil && len(v) == 0
 
 // nonNilIsAny mirrors errors.Is over a list of targets.
 //@ func mqtt.nonNilIsAny -> ok
@@ -375,16 +377,18 @@ package mqtt
 
 // Signals: a singleton holder channel carries the current signal channel.
 //@ func mqtt.clearSignalChan
-//@ requires ch != nil && !closed(ch) && cap(ch) == 1
-//@ recvinv ch(v): v != nil
-//@ modifies chanstate(ch), region("chan.len.struct()"), region("chan.head.struct()"), region("chan.q.struct()"), region("chan.closed.struct()")
+//@ requires ch != nil && !closed(ch) && cap(ch) == 1 && len(ch) == 1 && qat(ch, 0) != nil && len(qat(ch, 0)) == 0
+//@ recvinv ch(v): v != nil && len(v) == 0
+//@ modifies chanstate(ch), chanstate(qat(ch, 0))
 //@ ensures !closed(ch) && cap(ch) == 1
+//@ ensures[C12,C10] len(ch) == 1 && qat(ch, 0) != nil && closed(qat(ch, 0))
 
 //@ func mqtt.blockSignalChan
-//@ requires ch != nil && !closed(ch) && cap(ch) == 1
-//@ recvinv ch(v): v != nil
-//@ modifies chanstate(ch), region("chan.len.struct()"), region("chan.head.struct()"), region("chan.q.struct()"), region("chan.closed.struct()"), region("chan.cap.struct()")
+//@ requires ch != nil && !closed(ch) && cap(ch) == 1 && len(ch) == 1 && qat(ch, 0) != nil && len(qat(ch, 0)) == 0
+//@ recvinv ch(v): v != nil && len(v) == 0
+//@ modifies chanstate(ch)
 //@ ensures !closed(ch) && cap(ch) == 1
+//@ ensures[C12,C10] len(ch) == 1 && qat(ch, 0) != nil && !closed(qat(ch, 0)) && len(qat(ch, 0)) == 0
 
 //@ func mqtt.(*unorderedTxs).breakAll
 //@ unverified
@@ -393,7 +397,7 @@ package mqtt
 
 // toOffline: leave the connection; everything pending on it is released.
 //@ func mqtt.(*Client).toOffline
-//@ requires writable(c) && c.readConn != nil && c.offlineSig != nil && !closed(c.offlineSig) && cap(c.offlineSig) == 1 && c.pingAck != nil && !closed(c.pingAck) && cap(c.pingAck) == 1
+//@ requires writable(c) && sigfull(c) && c.readConn != nil && c.pingAck != nil && !closed(c.pingAck) && cap(c.pingAck) == 1
 //@ requires len(c.pingAck) > 0 ==> qat(c.pingAck, 0) != nil && !closed(qat(c.pingAck, 0)) && len(qat(c.pingAck, 0)) < cap(qat(c.pingAck, 0))
 //@ at[C10] recv writeSem#1: assert wclosed(c.readConn)
 //@ ensures[C07] c.pendingAck == old(c.pendingAck) && forall(k, 0, len(c.pendingAck), c.pendingAck[k] == old(c.pendingAck[k]))
@@ -438,13 +442,12 @@ package mqtt
 //@ requires (closed(c.connSem) ==> len(c.connSem) == 0) && (closed(c.writeSem) ==> closed(c.connSem)) && c.connSem != c.writeSem
 //@ requires !closed(c.atLeastOnce.seqSem) && !closed(c.exactlyOnce.seqSem)
 //@ requires c.atLeastOnce.seqSem != nil && cap(c.atLeastOnce.seqSem) == 1 && c.exactlyOnce.seqSem != nil && cap(c.exactlyOnce.seqSem) == 1 && c.atLeastOnce.seqSem != c.exactlyOnce.seqSem
-//@ requires c.offlineSig != nil && !closed(c.offlineSig) && cap(c.offlineSig) == 1 && c.offlineSig != c.onlineSig
+//@ requires sigfull(c)
 //@ requires forall(k, st_has(c.persistence, k) ==> st_len(c.persistence, k) >= 2)
 //@ at[C18] call dialAndConnect#1: assert config.CleanSession == (c.CleanSession && previousConn == nil) && config.Will.Topic == c.Will.Topic && config.KeepAlive == c.KeepAlive && config.UserName == c.UserName
 //@ at[C18] send connSem#1: assert v == previousConn
 //@ at[C18] send connSem#2: assert v == previousConn
-//@ at[C12,C18] send connSem#3: assert v == conn
-//@ at[C01,C05,C12,C18] call resend#1: assert len(c.connSem) == 1 && len(c.atLeastOnce.seqSem) == 0 && len(c.exactlyOnce.seqSem) == 0 && len(c.writeSem) == 0 && seqNoOffset == c.Acked && space == 32768
+//@ at[C01,C05,C12,C18] call resend#1: assert len(c.connSem) == 1 && qat(c.connSem, 0) == conn && len(c.atLeastOnce.seqSem) == 0 && len(c.exactlyOnce.seqSem) == 0 && len(c.writeSem) == 0 && seqNoOffset == c.Acked && space == 32768
 //@ at[C01,C05,C12,C18] call resend#2: assert len(c.connSem) == 1 && len(c.exactlyOnce.seqSem) == 0 && len(c.writeSem) == 0 && seqNoOffset == c.Completed && space == 49152
 //@ ensures[C10,C18] err == nil ==> c.readConn != nil && c.bufr != nil && c.reconnectWait == 0 && len(c.writeSem) == 1 && qat(c.writeSem, 0) == c.readConn && c.readConn != boxed(connSignal, 0) && c.readConn != boxed(connSignal, 1)
 //@ ensures[C10,C18] err != nil ==> c.readConn == old(c.readConn) && c.bufr == old(c.bufr)
@@ -477,3 +480,26 @@ package mqtt
 //@ ensures[C18] err != nil ==> r == nil
 //@ ensures[C18] hastype(err, connectReturn) ==> unbox(err, connectReturn) != 0
 //@ ensures[C08] forall(k, 0, old(wire_len(conn)), wire(conn)[k] == old(wire(conn))[k])
+
+// Close: takes connection control for good, closes the connection, flips the signals
+// (Online blocked before Offline is released) and closes both semaphores exactly once.
+//@ pred closable(c): writable(c) && c.connSem != nil && cap(c.connSem) == 1 && c.connSem != c.writeSem && (closed(c.connSem) ==> len(c.connSem) == 0) && (closed(c.writeSem) == closed(c.connSem)) && sigfull(c)
+//@ func mqtt.(*Client).Close -> err
+//@ stable writeSem
+// Rely: whoever closes connSem has taken the write token and closed writeSem before.
+//@ onclosed connSem: closed(c.writeSem) && len(c.writeSem) == 0
+//@ requires closable(c)
+//@ at[C12] call clearSignalChan#1: assert ch == c.offlineSig && len(c.onlineSig) == 1 && !closed(qat(c.onlineSig, 0))
+//@ ensures[C12] closed(c.connSem) && closed(c.writeSem) && len(c.connSem) == 0 && len(c.writeSem) == 0
+//@ ensures[C14] forall(k, wire_len(k) == old(wire_len(k)))
+
+//@ func mqtt.(*Client).Disconnect -> err
+//@ stable writeSem
+// Rely: whoever closes connSem has taken the write token and closed writeSem before.
+//@ onclosed connSem: closed(c.writeSem) && len(c.writeSem) == 0
+//@ requires closable(c)
+//@ at[C12] call clearSignalChan#1: assert ch == c.offlineSig && len(c.onlineSig) == 1 && !closed(qat(c.onlineSig, 0))
+//@ ensures[C12] closed(c.connSem) && closed(c.writeSem) && len(c.connSem) == 0 && len(c.writeSem) == 0
+//@ ensures[C12,C14] old(closed(c.connSem)) ==> err != nil && Is(err, ErrClosed) && forall(k, wire_len(k) == old(wire_len(k)))
+//@ ensures[C12,C14] err == nil ==> exists(w, wire_len(w) == old(wire_len(w)) + 2 && wire(w)[old(wire_len(w))] == 224 && wire(w)[old(wire_len(w)) + 1] == 0 && wclosed(w))
+//@ ensures[C14] err != nil && (Is(err, ErrClosed) || Is(err, ErrCanceled) || Is(err, ErrDown)) ==> forall(k, wire_len(k) == old(wire_len(k)))
